@@ -977,6 +977,24 @@ def res_rules(ctx):
            'along axis 0', f=f, node=(interp_call or f.node), key='interp',
            why='non-attitude columns are not exactly the complement of RPH_COLS interpolated '
                'linearly over the state index')
+    if interp_call is not None:
+        # `interpolates other columns linearly`: interp1d's default kind, or 'linear' spelled out
+        kind = None
+        if len(interp_call.args) >= 3:
+            kind = interp_call.args[2]
+        for k in interp_call.keywords:
+            if k.arg == 'kind':
+                kind = k.value
+        kv = 'linear'
+        if kind is not None:
+            try:
+                kv = ctx.repo.fold(kind, f.module)
+            except ValueError:
+                kv = None
+            ctx.need(kv is not None, 'resample_state: interp1d kind `%s` not read' % norm_text(kind))
+        ctx.ob('RES-SLERP', kv in ('linear', 'slinear', 1), None, 'interp1d interpolates linearly',
+               f=f, node=interp_call, key='interp-kind',
+               why='non-attitude columns are interpolated with kind=%r, not linearly' % (kv,))
     stores = {}
     for st in ast.walk(f.node):
         if isinstance(st, ast.Assign) and isinstance(st.targets[0], ast.Subscript) and \
